@@ -64,6 +64,8 @@ def run_ops(ctx: Ctx, what: str) -> None:
                     inferred = W.infer_partial_op(o, objs[-1][1])
                     if inferred is not None:
                         objs.append(("inferred by the builder", inferred))
+                if what == "typing" and o["op"] == "Conditional":
+                    _cases_of_builder(ctx, sig, ln, o)
                 if what == "codec":
                     _codec(ctx, sig, ln, o, enc, objs)
                 else:
@@ -198,3 +200,26 @@ def _typing(ctx, sig, ln, enc, obj, Hugr, Node, InPort, OutPort) -> bool:
                     if t is None or not W.same_t(W.proj_type(t), exp[1]):
                         return bad(f"port_type({d},{off}) via {where}", exp[1], None if t is None else W.proj_type(t), "port type = kind payload")
     return False
+
+
+def _cases_of_builder(ctx, sig, ln, o) -> None:
+    """C06: 'case i receives variant i followed by the other inputs' - also for the Case children the Conditional builder creates."""
+    from hugr import ops, tys
+    from hugr.build.cond_loop import Conditional
+    rows = [W.build_row(r) for r in o["sum_rows"]]
+    others = W.build_row(o["other_inputs"])
+    c = Conditional(tys.Sum(rows), others)
+    h = c.hugr
+    kids = list(h.children(h.root))
+    want = [[W.enc_type(t) for t in (*rows[i], *others)] for i in range(len(rows))]
+    got = []
+    for k in kids:
+        op = h[k].op
+        inp = [x for x in h.children(k) if isinstance(h[x].op, ops.Input)]
+        got.append({"case": [W.enc_type(t) for t in op.inputs] if isinstance(op, ops.Case) else type(op).__name__,
+                    "input node": [W.enc_type(t) for t in h[inp[0]].op.types] if inp else None})
+    ok = len(got) == len(want) and all(isinstance(g["case"], list) and len(g["case"]) == len(w) and all(W.same_t(a, b) for a, b in zip(g["case"], w))
+                                       and g["input node"] is not None and len(g["input node"]) == len(w) and all(W.same_t(a, b) for a, b in zip(g["input node"], w))
+                                       for g, w in zip(got, want))
+    if not ok:
+        ctx.violation(dict(sig, how="Case children made by the Conditional builder", what="case inputs"), ln, want, got, clause="CaseInputs(op, i) = sum_rows[i] ++ other_inputs")
